@@ -161,6 +161,25 @@ func buildC10Pool() *c10Pool {
 	addGo("client.API", &client_j5pb.API{Packages: []*client_j5pb.Package{{Name: "p", Label: "l"}}})
 	addGo("client.Package", &client_j5pb.Package{Name: "p"})
 
+	// types the schema reader rejects, used beside the accepted ones: a failing first use takes the same
+	// path through the cache (placeholder, build, clean-up) as a succeeding one
+	badSrc := map[string]string{
+		"verif/bad/v1/bad.proto":   "syntax = \"proto3\";\npackage verif.bad.v1;\nmessage BadMap { map<int32, string> m = 1; string s = 2; }\nmessage Fine { string s = 1; int64 n = 2; }\nmessage HoldsBad { BadMap bad = 1; Fine fine = 2; }\n",
+		"verif/bad2/v1/use.proto": "syntax = \"proto3\";\npackage verif.bad2.v1;\nimport \"verif/bad/v1/bad.proto\";\nmessage UsesBad { verif.bad.v1.BadMap bad = 1; string s = 2; }\nmessage UsesFine { verif.bad.v1.Fine fine = 1; repeated verif.bad.v1.Fine more = 2; }\nmessage UsesHolder { verif.bad.v1.HoldsBad h = 1; }\n",
+	}
+	badCT, err := compileProtoText(badSrc)
+	if err != nil {
+		panic("harness: C10 rejected-type protos do not compile: " + err.Error())
+	}
+	for _, full := range []string{"verif.bad.v1.BadMap", "verif.bad.v1.Fine", "verif.bad.v1.HoldsBad", "verif.bad2.v1.UsesBad", "verif.bad2.v1.UsesFine", "verif.bad2.v1.UsesHolder"} {
+		md := badCT.message(full)
+		m := dynamicpb.NewMessage(md)
+		if fd := md.Fields().ByName("s"); fd != nil {
+			m.Set(fd, protoreflect.ValueOfString("x"))
+		}
+		pool.items = append(pool.items, &c10Item{name: "rejected-family/" + full, md: md, msg: m, newMsg: func() protoreflect.Message { return dynamicpb.NewMessage(md) }})
+	}
+
 	// expected results: each call made alone on a private codec
 	priv := j5codec.NewCodec(j5codec.WithResolver(sink.ct.Types), j5codec.WithProtoToAny())
 	for _, it := range pool.items {
@@ -343,6 +362,12 @@ func c10Trial(c *rt.C, pool *c10Pool, rng *rand.Rand, useGlobal bool, warm *j5co
 		want[c10In{1, it.name}] = it.decWant
 		want[c10In{2, it.name}] = it.qryWant
 	}
+	rejectedAlone := map[string]bool{}
+	for _, it := range items {
+		if _, err := j5schema.NewSchemaCache().Schema(it.md); err != nil {
+			rejectedAlone[string(it.md.FullName())] = true
+		}
+	}
 	model := porcupine.Model{
 		Partition: func(h []porcupine.Operation) [][]porcupine.Operation {
 			m := map[c10In][]porcupine.Operation{}
@@ -368,7 +393,11 @@ func c10Trial(c *rt.C, pool *c10Pool, rng *rand.Rand, useGlobal bool, warm *j5co
 				// the codec as a pure function of (op, type, input)
 				return out == want[in], state
 			}
-			// the schema cache as a write-once register per type name
+			// the schema cache as a write-once register per type name; a type which the reader rejects when
+			// it is reflected alone must be rejected every time
+			if rejectedAlone[in.item] {
+				return out == "error", state
+			}
 			if out == "error" {
 				return false, state
 			}
